@@ -127,6 +127,26 @@ def _own_exprs(n: ast.AST) -> List[ast.AST]:
     return []
 
 
+def _exhaustion_facts(s: ast.For) -> Tuple[Atom, ...]:
+    """`for x in S: if T(x): return ..` (nothing else in the body, no break): when the loop runs out, no element
+    satisfied T - the fact `any(T(x) for x in S)` is False, as if the loop had been written with any()."""
+    if isinstance(s, ast.AsyncFor) or len(s.body) != 1 or not isinstance(s.body[0], ast.If) or s.body[0].orelse:
+        return ()
+    br = s.body[0]
+    if not br.body or not isinstance(br.body[-1], (ast.Return, ast.Raise)):
+        return ()
+    if any(isinstance(x, (ast.NamedExpr, ast.Await, ast.Yield, ast.YieldFrom)) for x in ast.walk(br.test)):
+        return ()
+    gen = ast.GeneratorExp(elt=br.test, generators=[ast.comprehension(target=s.target, iter=s.iter, ifs=[], is_async=0)])
+    atom = ast.Call(func=ast.Name(id="any", ctx=ast.Load()), args=[gen], keywords=[])
+    ast.copy_location(atom, s)
+    ast.copy_location(gen, s)
+    atom._parent = s  # type: ignore
+    gen._parent = atom  # type: ignore
+    atom.func._parent = atom  # type: ignore
+    return ((atom, False),)
+
+
 def names_in(e: ast.AST) -> Set[str]:
     return {x.id for x in ast.walk(e) if isinstance(x, ast.Name)} | {"attr:" + x.attr for x in ast.walk(e) if isinstance(x, ast.Attribute)}
 
@@ -205,7 +225,7 @@ class CFG:
             self._connect(body_out, f)
             for c in inner.continues:
                 self._edge(c, f)
-            out = self._seq(s.orelse, [(f, ())], ctx)
+            out = self._seq(s.orelse, [(f, _exhaustion_facts(s) if not inner.breaks else ())], ctx)
             return out + [(b, ()) for b in inner.breaks]
         if isinstance(s, (ast.With, ast.AsyncWith)):
             w = self._new("with", s, s)
